@@ -86,3 +86,14 @@ reg("C19",
     "C10 case space plus a bounded-exhaustive core (every k and j for small sources).",
     "Trusts: FRAME model. Zero-sample hops not generated.",
     "runtime monitoring: operation histories checked against a reference model", "DESIGN.md section 7 C19")
+reg("C09",
+    "Differential monitor: one decoded audio is split through 14 container kinds x 5 parameter spellings and max_read "
+    "variants; every region list must equal the bytes/long-names reference, which is itself tied to the ENERGY->SEG model.",
+    "Trusts: the reference path is checked against the model in the same run. AudioReader container only when its block equals the window. Microphone not covered (no PyAudio).",
+    "runtime monitoring: differential oracle across code paths + reference model", "DESIGN.md section 7 C09")
+reg("C20",
+    "History monitor: second use of one object compared with a fresh object's result; bounded-exhaustive over all ordered "
+    "pairs of small streams x small tuples x 7 earlier-use modes, random longer pairs, repeated split() of region/bytes/"
+    "rewound recorder, shuffled validator orders, buffer close/open.",
+    "Trusts: a suspended generator of the earlier use is never resumed after the second use started.",
+    "runtime monitoring: use-history differential oracle (reused vs fresh object)", "DESIGN.md section 7 C20")
